@@ -482,7 +482,34 @@ def enumerated(tier, seed):
                   D("outer", ("fn", [("y", "int")], "int", [D("inner", ("fn", [], None, [D("y", ("bin", "+", V("y"), I(5)), ("modify",))])),
                                                             ("expr", ("call", V("inner"), [])), ("expr", ("call", V("inner"), [])), ("return", V("y"))])),
                   ("print", ("call", V("outer"), [I(1)])), ("print", V("y"))]
-    return [{"stmts": pm, "labels": ["fixed:parameter-named-like-the-modified-variable"], "nt": True},
+    # closures that call THEMSELVES (`self(..)`) and use their captured variables after the recursive call has come back: read
+    # (while a caller owns a variable of the same name, after the factory has returned), `modify`, a nested closure, a second self call
+    FII = ("fn", ["int"], "int")
+    summer = ("fn", [("n", "int")], "int", [D("calls", ("bin", "+", V("calls"), I(1)), ("modify",)),
+                                             ("if", ("bin", "==", V("n"), I(0)), [("return", I(0))], None),
+                                             D("rest", ("selfcall", [("bin", "-", V("n"), I(1))])), ("return", ("bin", "+", V("rest"), V("step")))])
+    rec = [D("mk", ("fn", [("step", "int")], FII, [D("calls", I(0)), ("return", summer)])),
+           D("by3", ("call", V("mk"), [I(3)])), D("by10", ("call", V("mk"), [I(10)])),
+           ("print", ("call", V("by3"), [I(0)])), ("print", ("call", V("by3"), [I(2)])),
+           D("stride", ("fn", [("step", "int")], "int", [("return", ("call", V("by3"), [I(2)]))])),
+           ("print", ("call", V("stride"), [I(1000)])), ("print", ("call", V("stride"), [I(0 - 3)])),
+           D("pace", ("fn", [], "int", [D("step", I(7)), D("a", ("call", V("by10"), [I(1)])), D("step", I(8)), D("b", ("call", V("by10"), [I(3)])),
+                                        ("return", ("bin", "+", ("bin", "*", V("a"), I(1000)), V("b")))])),
+           ("print", ("call", V("pace"), [])),
+           D("total", I(0)),
+           D("down", ("fn", [("n", "int")], None, [("if", ("bin", ">", V("n"), I(0)), [("expr", ("selfcall", [("bin", "-", V("n"), I(1))])),
+                                                                                        D("total", ("bin", "+", V("total"), V("n")), ("modify",))], None)])),
+           ("expr", ("call", V("down"), [I(4)])), ("print", V("total")),
+           D("base", I(5)),
+           D("twice", ("fn", [("n", "int")], "int", [("if", ("bin", "<=", V("n"), I(0)), [("return", V("base"))], None),
+                                                      D("l", ("selfcall", [("bin", "-", V("n"), I(1))])), D("r", ("selfcall", [("bin", "-", V("n"), I(2))])),
+                                                      D("base", ("bin", "+", V("base"), I(1)), ("modify",)), ("return", ("bin", "+", ("bin", "+", V("l"), V("r")), V("base")))])),
+           ("print", ("call", V("twice"), [I(3)])), ("print", V("base")),
+           D("nest", ("fn", [("n", "int")], ("fn", [], "int"), [("if", ("bin", ">", V("n"), I(0)), [D("inner", ("selfcall", [("bin", "-", V("n"), I(1))]))], None),
+                                                              ("return", ("fn", [], "int", [("return", ("bin", "+", V("base"), V("n")))]))])),
+           D("nf", ("call", V("nest"), [I(2)])), ("print", ("call", V("nf"), [])), D("base", I(100)), ("print", ("call", V("nf"), []))]
+    return [{"stmts": rec, "labels": ["fixed:closure-that-calls-itself-then-uses-its-captures"], "nt": True},
+            {"stmts": pm, "labels": ["fixed:parameter-named-like-the-modified-variable"], "nt": True},
             {"stmts": pm_factory, "labels": ["fixed:parameter-of-the-factory-is-the-captured-variable"], "nt": True},
             {"stmts": late, "labels": ["feat:use-before-local-shadow"], "nt": True},
             {"stmts": late_alive, "labels": ["feat:use-before-local-shadow-owner-alive"], "nt": True},
